@@ -220,7 +220,14 @@ def dump_all_targets(enc, cfg, spec):
             os.remove(path)
         e = make_encoder(enc, **cfg)
         try:
-            if target == "path-str":
+            if target == "path-str" and enc == "PDS3":
+                # keyword arguments instead of an encoder instance: they must reach
+                # the default (PDS3) encoder exactly as they do through dumps()
+                ret = pvl.dump(m, path, **cfg)
+                got = open(path, "rb").read()
+                wantdata = pvl.dumps(gv.build_module(spec), **cfg).encode("utf-8")
+                wantret = len(wantdata.decode("utf-8"))
+            elif target == "path-str":
                 ret = pvl.dump(m, path, encoder=e)
                 got = open(path, "rb").read()
                 wantdata, wantret = text.encode("utf-8"), len(text)
